@@ -258,15 +258,31 @@ Definition status_condition (o : json) (ty : string) : option json :=
 Definition cond_field (cond : json) (f : string) : string :=
   match jget f (obj_map cond) with JStr s => s | _ => "" end.
 
-(* childStatusCheck: None = healthy, Some why = not *)
-Definition child_status_check (cks : list (string * option string * option string)) (o : json) : bool :=
-  forallb (fun ck => match ck with (ty, st, rs) =>
+(* childStatusCheck: None = healthy, Some why = the error text *)
+Definition quote (s : string) : string := (String """"%char s ++ String """"%char EmptyString)%string.
+
+Definition child_status_why (cks : list (string * option string * option string)) (o : json) : option string :=
+  first_some (fun ck => match ck with (ty, st, rs) =>
     match status_condition o ty with
-    | None => false
+    | None => Some ("required condition type missing: " ++ quote ty)%string
     | Some cond =>
-        (match st with Some s => String.eqb (cond_field cond "status") s | None => true end) &&
-        (match rs with Some s => String.eqb (cond_field cond "reason") s | None => true end)
+        match st with
+        | Some s => if String.eqb (cond_field cond "status") s then
+                      match rs with
+                      | Some r => if String.eqb (cond_field cond "reason") r then None
+                                  else Some (quote ty ++ " condition reason is " ++ quote (cond_field cond "reason") ++ " (want " ++ quote r ++ ")")%string
+                      | None => None end
+                    else Some (quote ty ++ " condition status is " ++ quote (cond_field cond "status") ++ " (want " ++ quote s ++ ")")%string
+        | None =>
+            match rs with
+            | Some r => if String.eqb (cond_field cond "reason") r then None
+                        else Some (quote ty ++ " condition reason is " ++ quote (cond_field cond "reason") ++ " (want " ++ quote r ++ ")")%string
+            | None => None end
+        end
     end end) cks.
+
+Definition child_status_check (cks : list (string * option string * option string)) (o : json) : bool :=
+  match child_status_why cks o with None => true | Some _ => false end.
 
 (* ---------- shouldContinueRolling: None = go on, Some msg = wait ---------- *)
 Definition child_up_to_date (child : json) (update : option json) : option bool :=
@@ -300,8 +316,10 @@ Definition should_continue_rolling (c : ccfg) (pns : string) (latest : prev) (ob
                  | Some og => Z.ltb 0 og && Z.ltb og (get_generation child)
                  | None => false end
               then Some ("child " ++ ck_kind ck ++ " " ++ name ++ " with RollingInPlace update strategy hasn't observed latest spec")%string
-              else if child_status_check (checks_for c (ck_group ck) (ck_kind ck)) child then None
-              else Some ("child " ++ ck_kind ck ++ " " ++ name ++ " failed status check")%string
+              else match child_status_why (checks_for c (ck_group ck) (ck_kind ck)) child with
+                   | None => None
+                   | Some why => Some ("child " ++ ck_kind ck ++ " " ++ name ++ " failed status check: " ++ why)%string
+                   end
           end
       end) (ck_names ck)) (rev_children (pr_rev latest)).
 
